@@ -8,7 +8,7 @@ PROPERTY_GROUPS = {
     'C06': ['rep', 'timing', 'dt', 'load', 'httprange'],
     'C08': ['timing'],
     'C09': ['timing', 'rep', 'dt', 'errors'],
-    'C10': ['drm', 'mp4'],
+    'C10': ['drm', 'mp4', 'playready'],
     'C11': ['playready', 'mp4', 'drm'],
     'C12': ['mps'],
     'C13': ['httprange', 'rep'],
